@@ -64,6 +64,16 @@ func (x *Exec) execCall(fr *Frame, st *State, cc *ssa.CallCommon, site ssa.Value
 		// dynamic call through a func value
 		fv := x.flatten(x.get(fr, cc.Value))[0]
 		x.panicCheck(st, "nil", pos, Not(Eq(fv, IntLit(0))))
+		// a named func type may carry a contract that every value of the type satisfies
+		if nt, ok := cc.Value.Type().(*types.Named); ok && nt.Obj().Pkg() != nil {
+			short := x.P.Short[nt.Obj().Pkg().Path()]
+			if short == "" {
+				short = strings.TrimPrefix(nt.Obj().Pkg().Path(), mainMod+"/")
+			}
+			if fc := x.C.Funcs[short+"."+nt.Obj().Name()]; fc != nil && fc.Flags["functype"] {
+				return x.applyContract(fr, st, fc, nil, sig, short+"."+nt.Obj().Name(), args, rt, pos)
+			}
+		}
 		return x.unknownCall(fr, st, "dynamic call "+x.srcAt(pos), rt, pos)
 	}
 	if callee != nil {
@@ -146,7 +156,9 @@ func (x *Exec) inlineCall(fr *Frame, st *State, callee *ssa.Function, args []Val
 
 func (x *Exec) unknownCall(fr *Frame, st *State, key string, rt types.Type, pos token.Pos) Value {
 	x.trusted["unknown callee (no contract; heap havoced, assumed not to panic): "+key] = true
+	saved := x.savePrivateBoxes(fr, st)
 	x.havocAll(st)
+	x.restorePrivateBoxes(st, saved)
 	if rt == nil {
 		return nil
 	}
@@ -229,6 +241,21 @@ func (x *Exec) addMod(env *SpecEnv, m *ModSet, e Expr) {
 			sfail("bad modifies item")
 		}
 		switch id.Name {
+		case "heapof":
+			// every field (and ghost field) of every type of the named package
+			pn, ok := e.Args[0].(*EIdent)
+			if !ok {
+				sfail("heapof(package)")
+			}
+			path := pn.Name
+			if p := x.findPkg(env, pn.Name); p != nil {
+				path = strings.TrimPrefix(p.Path(), mainMod+"/")
+			}
+			m.whole["F|"+path] = true
+			m.whole["F|*"+path] = true
+			short := pn.Name
+			m.whole["G|"+short] = true
+			return
 		case "allelems":
 			T := x.typeArg(env, e.Args[0])
 			m.whole["E|"+typeName(T.G)] = true
@@ -290,6 +317,15 @@ func (x *Exec) addMod(env *SpecEnv, m *ModSet, e Expr) {
 			return
 		}
 		switch e.Name {
+		case "maps":
+			m.whole["M"] = true
+			return
+		case "elems":
+			m.whole["E"] = true
+			return
+		case "boxes":
+			m.whole["B"] = true
+			return
 		case "sends":
 			m.whole["C|sendcount"] = true
 			m.whole["C|sendlog"] = true
@@ -315,8 +351,8 @@ func (x *Exec) addMod(env *SpecEnv, m *ModSet, e Expr) {
 // contractEnv binds parameter names of a signature to argument values.
 func (x *Exec) contractEnv(st *State, old *State, fc *FuncContract, callee *ssa.Function, sig *types.Signature, args []Value) *SpecEnv {
 	env := &SpecEnv{x: x, st: st, old: old, vars: map[string]SVal{}}
-	if p, ok := x.P.Pkgs[fc.Pkg]; ok {
-		env.pkg = p.Types
+	if p := x.typesPkg(fc.Pkg); p != nil {
+		env.pkg = p
 	} else if callee != nil && callee.Pkg != nil {
 		env.pkg = callee.Pkg.Pkg
 	}
@@ -403,7 +439,12 @@ func (x *Exec) applyContract(fr *Frame, st *State, fc *FuncContract, callee *ssa
 		return x.havocValue(st, "ret", rt)
 	}
 	mods := x.buildModSet(env, fc.Modifies, fc.Flags["allocates"])
+	var savedBoxes []savedBox
+	if mods.all || mods.whole["B"] {
+		savedBoxes = x.savePrivateBoxes(fr, st)
+	}
 	x.frameEpoch(st, mods)
+	x.restorePrivateBoxes(st, savedBoxes)
 	for g := range mods.ghosts {
 		assigned := false
 		for _, c := range fc.Exits {
@@ -849,4 +890,78 @@ func (x *Exec) exprPlace(env *SpecEnv, e Expr) *Place {
 		p = x.subPlace(p, i)
 	}
 	return p
+}
+
+// private boxes: escaping locals of the current function whose address is only captured by closures that
+// this function itself defers or spawns. No callee can reach them, so a callee's havoc does not affect them.
+type savedBox struct {
+	name string
+	ref  Term
+	val  Term
+}
+
+func privateBox(a *ssa.Alloc) bool {
+	if !a.Heap {
+		return false
+	}
+	for _, r := range *a.Referrers() {
+		switch r := r.(type) {
+		case *ssa.Store:
+			if r.Addr != a {
+				return false // the address itself is stored somewhere
+			}
+		case *ssa.UnOp, *ssa.DebugRef:
+		case *ssa.MakeClosure:
+			for _, cr := range *r.Referrers() {
+				switch cr.(type) {
+				case *ssa.Defer, *ssa.Go, *ssa.DebugRef:
+				default:
+					return false
+				}
+			}
+		default:
+			return false
+		}
+	}
+	return true
+}
+
+func (x *Exec) savePrivateBoxes(fr *Frame, st *State) []savedBox {
+	var out []savedBox
+	if fr == nil {
+		return nil
+	}
+	for _, b := range fr.fn.Blocks {
+		for _, ins := range b.Instrs {
+			a, ok := ins.(*ssa.Alloc)
+			if !ok || !privateBox(a) {
+				continue
+			}
+			v, bound := fr.vals[a]
+			if !bound {
+				continue
+			}
+			ref, isRef := v.(VScalar)
+			if !isRef {
+				continue
+			}
+			elem := a.Type().(*types.Pointer).Elem()
+			if _, isStruct := elem.Underlying().(*types.Struct); isStruct {
+				continue
+			}
+			for _, l := range leavesOf(elem) {
+				name := "B|" + typeName(elem) + "|" + l.Name
+				arr := x.heapGet(st, name, ArrSort(SInt, l.Sort))
+				out = append(out, savedBox{name, ref.T, x.define("boxval", Select(arr, ref.T))})
+			}
+		}
+	}
+	return out
+}
+
+func (x *Exec) restorePrivateBoxes(st *State, saved []savedBox) {
+	for _, s := range saved {
+		arr := x.heapGet(st, s.name, ArrSort(SInt, s.val.Sort))
+		x.heapSet(st, s.name, x.define("h", Store(arr, s.ref, s.val)))
+	}
 }
